@@ -133,7 +133,9 @@ class Alphabet:
         return self.sym_cc[sym].mname
 
 
-Tok = collections.namedtuple('Tok', 'start lag blen minlen pos kind fresh shared invented origin')
+Tok = collections.namedtuple('Tok', 'start lag blen minlen pos kind fresh shared invented origin after')
+Tok.__new__.__defaults__ = (frozenset(),)
+# after : names of token-valued locals whose text ended exactly where this (variable-length) token starts
 # start : cursor offset (round coordinates) at which the token text starts, or None
 # lag   : cursor - end of token text (0 = in sync), M when unknown/large
 # blen  : exact length when known and small, else None
@@ -435,6 +437,62 @@ class TokInterp(Interp):
             return [(('bound', v, attr), st)]
         self.unsupported('attribute .%s of %s' % (attr, t), n)
 
+    def ev_Lambda(self, n, st):
+        return [(('lambda', n), st)]
+
+    def call_lambda(self, lam, args, st):
+        """evaluate a lambda body with its parameters bound (no closure variables other than the frame's)"""
+        node = lam[1]
+        params = [a.arg for a in node.args.args]
+        s = st.copy()
+        saved = {p: s.top.vars.get(p) for p in params}
+        for p, a in zip(params, args):
+            s.top.vars[p] = a
+        outs = []
+        for v, s1 in self.ev(node.body, s):
+            s2 = s1.copy()
+            for p, old in saved.items():
+                if old is None:
+                    s2.top.vars.pop(p, None)
+                else:
+                    s2.top.vars[p] = old
+            outs.append((v, s2))
+        return outs
+
+    def forward_until(self, cond, peek_flag, st, node):
+        """Buffer.forward_until(cond): consume items one at a time until cond(item) holds or the input ends;
+        the result is the concatenation of what was consumed (summary of the method, see R11.d / R20)"""
+        if cond[0] != 'lambda' or not peek_flag:
+            self.unsupported('forward_until with a condition that is not a lambda over one item', node)
+        insync = frozenset(k for k, v in st.top.vars.items() if v[0] == 'tok' and v[1].lag == 0)
+        empty = Tok(start=st.cur, lag=0, blen=0, minlen=0, pos=('first', st.cur), kind=None, fresh=True, shared=False,
+                    invented=False, origin=None, after=insync)
+        results, work, seen = [], [(st, empty)], set()
+        while work:
+            s0, acc = work.pop()
+            k = (s0.key(), acc)
+            if k in seen:
+                continue
+            seen.add(k)
+            if len(seen) > 5000:
+                raise AnalysisError('forward_until state space too large')
+            for v, s1 in self.peek(0, s0):
+                if v[0] == 'const':
+                    results.append((('tok', acc), s1))
+                    continue
+                for cv, s2 in self.call_lambda(cond, [v], s1):
+                    if isinstance(cv, Raised):
+                        results.append((cv, s2))
+                        continue
+                    for b, s3 in self.truth(cv, s2):
+                        if b:
+                            results.append((('tok', acc), s3))
+                        else:
+                            for tv, s4 in self.forward(1, s3, node):
+                                acc2 = self.concat(('tok', acc._replace(lag=sat_add(acc.lag, 1))), tv, node, s4)[1]
+                                work.append((s4, acc2))
+        return results
+
     def ev_UnaryOp(self, n, st):
         if isinstance(n.op, ast.Not):
             return [((b if isinstance(b, Raised) else ('const', b)), s1) for b, s1 in self.cond(n, st)]
@@ -488,11 +546,13 @@ class TokInterp(Interp):
                 return self.concat(l, r, n, st)
         self.unsupported('binary operation %s' % norm(n), n)
 
-    def concat(self, a, b, n, st):
+    def concat(self, a, b, n, st, aname=None):
         """Token + Token / Token + str  (summary of utils.Token.__add__/__iadd__/__radd__, see R13.b)"""
         if a[0] == 'tok' and b[0] == 'tok':
             A_, B_ = a[1], b[1]
             contiguous = B_.blen is not None and A_.lag != M and B_.lag != M and A_.lag == B_.lag + B_.blen
+            if not contiguous and B_.blen is None and aname is not None and aname in B_.after and B_.lag == 0:
+                contiguous = True
             if not contiguous:
                 if B_.blen is None or A_.lag == M or B_.lag == M:
                     self.unsupported('concatenation whose contiguity is not decidable: %s' % norm(n), n)
@@ -529,7 +589,7 @@ class TokInterp(Interp):
             if a[0] == 'const' and isinstance(a[1], int) and v[0] == 'const' and isinstance(v[1], int):
                 res = ('const', a[1] + v[1])
             else:
-                res = self.concat(a, v, n, s1)
+                res = self.concat(a, v, n, s1, aname=n.target.id)
             s2 = s1.copy()
             s2.top.vars[n.target.id] = res
             outs.append((res, s2))
@@ -660,7 +720,8 @@ class TokInterp(Interp):
         self.unsupported('non-constant integer argument in %s' % norm(n)[:60], n)
 
     def cursor_call(self, meth, n, st):
-        if n.keywords:
+        if n.keywords and not (meth == 'forward_until' and all(
+                k.arg == 'peek' and isinstance(k.value, ast.Constant) and k.value.value is True for k in n.keywords)):
             self.unsupported('keyword arguments on cursor method', n)
         outs = []
         for vals, s1 in self.evs(n.args, st):
@@ -685,7 +746,9 @@ class TokInterp(Interp):
                 outs += self.forward(k, s1, n)
             elif meth == 'backward':
                 outs += self.backward(vals[0] if vals else ('const', 1), s1, n)
-            elif meth in ('startswith', 'endswith', 'forward_until', 'num_forward_until'):
+            elif meth == 'forward_until':
+                outs += self.forward_until(vals[0], True, s1, n)
+            elif meth in ('startswith', 'endswith', 'num_forward_until'):
                 self.unsupported('cursor method %s in tokenizer' % meth, n)
             else:
                 self.unsupported('cursor method %s' % meth, n)
@@ -1041,18 +1104,24 @@ class TokInterp(Interp):
             if l[0] == 'range' and r[0] == 'const' and isinstance(r[1], str):
                 lo, hi = l[1], l[2]
                 p = r[1]
-                if lo != 0 or hi != len(p):
-                    if hi - lo < len(p):
-                        return [(neg, st)]
-                    self.unsupported('range peek compared with a shorter literal', node)
+                if hi - lo < len(p) or lo < 0:
+                    return [(neg, st)]
+                if lo + len(p) + 1 >= len(st.W):
+                    self.unsupported('range peek beyond the modelled window', node)
                 outs = [(neg, st)]
                 s1, ok = st, True
                 for k, ch in enumerate(p):
                     sym = self.A.sym_of_char(ch)
-                    if sym not in s1.slot(k):
+                    if sym not in s1.slot(lo + k):
                         ok = False
                         break
-                    s1 = self.with_slot(s1, k, {sym})
+                    s1 = self.with_slot(s1, lo + k, {sym})
+                if ok and hi - lo > len(p):
+                    # a longer range equals the literal only when the input ends right after it
+                    if EOF in s1.slot(lo + len(p)):
+                        s1 = self.with_slot(s1, lo + len(p), {EOF})
+                    else:
+                        ok = False
                 if ok:
                     outs.append((not neg, s1))
                 return outs
@@ -1065,11 +1134,10 @@ class TokInterp(Interp):
                 other = r if l[0] == 'const' and l[1] is None else l
                 if other[0] in ('item', 'tok', 'staleitem', 'ptok', 'slotcat', 'cat', 'pos'):
                     return [(neg, st)]
-            if l[0] == 'tok' and r[0] == 'const' and isinstance(r[1], str):
-                # text comparison of a built token: undetermined by categories
-                s1 = st.copy()
-                s1.imprecise = True
-                return [(True, s1), (False, s1.copy())]
+            if l[0] in ('tok', 'item', 'staleitem') and r[0] in ('tok', 'item', 'staleitem', 'const') and \
+                    (r[0] != 'const' or isinstance(r[1], str)):
+                # comparison of token texts: not determined by the categories, either outcome is possible
+                return [(True, st), (False, st.copy())]
             self.unsupported('comparison %s' % norm(node)[:70], node)
         if isinstance(op, (ast.In, ast.NotIn)):
             ints = self.const_ints(r)
@@ -1121,9 +1189,7 @@ class TokInterp(Interp):
                     if want & cur:
                         outs.append((not neg, st))
                     outs.append((neg, st))
-                    s1 = st.copy()
-                    s1.imprecise = True
-                    return [(b, s1.copy()) for b, _ in outs]
+                    return [(b, st.copy()) for b, _ in outs]
             self.unsupported('membership test of %s' % l[0], node)
         if isinstance(op, (ast.Lt, ast.LtE, ast.Gt, ast.GtE)):
             if l[0] == 'const' and r[0] == 'const':
